@@ -192,7 +192,7 @@ func tmplValue(t *Ty, v reflect.Value, sel func(string) bool, path string) strin
 	b := baseOf(t)
 	switch {
 	case b.K == "st":
-		return tmplJSON(b, v, func(string) bool { return true }, path)
+		return tmplJSON(b, v, sel, path) // sub-fields are selected by `sel` too (partial sub-templates)
 	case t.K == "sl" && !isByteSeq(t):
 		var es []string
 		for i := 0; i < v.Len(); i++ {
@@ -203,7 +203,7 @@ func tmplValue(t *Ty, v reflect.Value, sel func(string) bool, path string) strin
 		var es []string
 		it := v.MapRange()
 		for it.Next() {
-			es = append(es, strconv.Quote(it.Key().String())+":"+tmplValue(b.Elem, it.Value(), sel, path))
+			es = append(es, strconv.Quote(mapKeyText(it.Key()))+":"+tmplValue(b.Elem, it.Value(), sel, path))
 		}
 		return "{" + strings.Join(es, ",") + "}"
 	case isByteSeq(b) || b.K == "str":
@@ -220,6 +220,20 @@ func tmplValue(t *Ty, v reflect.Value, sel func(string) bool, path string) strin
 	return string(j)
 }
 
+// mapKeyText: a map key as the JSON object key of a template
+func mapKeyText(k reflect.Value) string {
+	switch k.Kind() {
+	case reflect.String:
+		return k.String()
+	case reflect.Bool:
+		return strconv.FormatBool(k.Bool())
+	case reflect.Int, reflect.Int32, reflect.Int64:
+		return strconv.FormatInt(k.Int(), 10)
+	default:
+		return strconv.FormatUint(k.Uint(), 10)
+	}
+}
+
 // applyTemplate computes the expected value: fields named by the template are replaced by the template's value.
 func applyTemplate(t *Ty, dst, src reflect.Value, sel func(string) bool, path string) {
 	st := baseOf(t)
@@ -230,13 +244,44 @@ func applyTemplate(t *Ty, dst, src reflect.Value, sel func(string) bool, path st
 		}
 		d, s := dst.Field(i), src.Field(i)
 		fb := baseOf(f.T)
-		if fb.K == "st" && f.T.K != "sl" {
-			// embedded message: only its templated sub-fields (all of them here) are replaced → equals src's sub-message,
-			// except that an all-default result is not emitted at all
+		switch {
+		case fb.K == "st" && f.T.K != "sl":
+			// singular message: its templated sub-fields are replaced, the others keep what the message had (merged over
+			// all the occurrences it arrived in)
+			for d.Kind() == reflect.Ptr {
+				if d.IsNil() {
+					d.Set(reflect.New(d.Type().Elem()))
+				}
+				d = d.Elem()
+			}
+			for s.Kind() == reflect.Ptr {
+				if s.IsNil() {
+					s = reflect.Zero(s.Type().Elem())
+				} else {
+					s = s.Elem()
+				}
+			}
+			applyTemplate(fb, d, s, sel, p)
+		case f.T.K == "sl" && baseOf(f.T.Elem).K == "st":
+			// repeated message: the list is replaced; every new element has the templated sub-fields only
+			n := reflect.MakeSlice(d.Type(), 0, s.Len())
+			for k := 0; k < s.Len(); k++ {
+				e := reflect.New(d.Type().Elem()).Elem()
+				ed, es := e, s.Index(k)
+				for ed.Kind() == reflect.Ptr {
+					ed.Set(reflect.New(ed.Type().Elem()))
+					ed = ed.Elem()
+				}
+				for es.Kind() == reflect.Ptr {
+					es = es.Elem()
+				}
+				applyTemplate(baseOf(f.T.Elem), ed, es, sel, p)
+				n = reflect.Append(n, e)
+			}
+			d.Set(n)
+		default:
 			setDeep(d, s)
-			continue
 		}
-		setDeep(d, s)
 	}
 }
 
@@ -270,10 +315,13 @@ func (h *H) genTmplStruct(depth int) *Ty {
 			if h.Bool() {
 				ft = &Ty{K: "ptr", Elem: ft}
 			}
+		case r < 9 && depth == 0 && h.Bool():
+			ft = &Ty{K: "sl", Elem: h.genTmplFlat()} // repeated message (scalar fields only)
 		case r < 10:
 			ft = &Ty{K: "sl", Elem: &Ty{K: []string{"i32", "i64", "u64", "str", "f64", "bool"}[h.Intn(6)]}}
 		default:
-			ft = &Ty{K: "map", Key: &Ty{K: "str"}, Elem: &Ty{K: []string{"i32", "i64", "str", "u64"}[h.Intn(4)]}}
+			ft = &Ty{K: "map", Key: &Ty{K: []string{"str", "str", "i32", "i64", "u64", "u32", "bool"}[h.Intn(7)]},
+				Elem: &Ty{K: []string{"i32", "i64", "str", "u64"}[h.Intn(4)]}}
 		}
 		f := Field{Name: fmt.Sprintf("F%d", i), T: ft}
 		if tagged {
@@ -299,6 +347,14 @@ func (h *H) genTmplStruct(depth int) *Ty {
 				wire = "fixed32"
 			case "f64":
 				wire = "fixed64"
+			case "u32", "i32":
+				if rep == "opt" && ft.K != "ptr" && h.Intn(3) == 0 {
+					wire = "fixed32" // fixed32 / sfixed32 (commit d57430f: templates write them with a fixed width)
+				}
+			case "u64", "i64":
+				if rep == "opt" && ft.K != "ptr" && h.Intn(3) == 0 {
+					wire = "fixed64"
+				}
 			}
 			if ft.K == "ptr" && (wire == "fixed32" || wire == "fixed64") {
 				wire = "varint"
@@ -306,6 +362,16 @@ func (h *H) genTmplStruct(depth int) *Ty {
 			f.Tag = fmt.Sprintf(`protobuf:"%s,%d,%s,name=%s"`, wire, num, rep, f.Name)
 		}
 		t.Fields = append(t.Fields, f)
+	}
+	return t
+}
+
+// genTmplFlat: a message of one to four scalar fields, untagged
+func (h *H) genTmplFlat() *Ty {
+	t := &Ty{K: "st"}
+	for i, n := 0, 1+h.Intn(4); i < n; i++ {
+		t.Fields = append(t.Fields, Field{Name: fmt.Sprintf("F%d", i),
+			T: &Ty{K: []string{"bool", "i32", "i64", "int", "u32", "u64", "f64", "str", "bytes"}[h.Intn(9)]}})
 	}
 	return t
 }
@@ -330,15 +396,20 @@ func (h *H) nonZeroCollections(t *Ty, v reflect.Value) {
 				n := 0
 				for it.Next() {
 					k, e := it.Key(), it.Value()
-					if k.String() == "" || e.IsZero() || !stdjson.Valid([]byte(strconv.Quote(k.String()))) {
+					if k.IsZero() || e.IsZero() {
 						continue
 					}
-					// keys must survive a JSON round trip unchanged
-					var back string
-					j, _ := stdjson.Marshal(k.String())
-					stdjson.Unmarshal(j, &back)
-					if back != k.String() {
+					if k.Kind() == reflect.String && !stdjson.Valid([]byte(strconv.Quote(k.String()))) {
 						continue
+					}
+					if k.Kind() == reflect.String {
+						// keys must survive a JSON round trip unchanged
+						var back string
+						j, _ := stdjson.Marshal(k.String())
+						stdjson.Unmarshal(j, &back)
+						if back != k.String() {
+							continue
+						}
 					}
 					m.SetMapIndex(k, e)
 					n++
@@ -405,18 +476,39 @@ func opTemplate(a []string) (string, string, string) {
 	v := parseVal(t, a[1])
 	v2 := parseVal(t, a[2])
 	mask, _ := strconv.ParseUint(a[3], 10, 64)
+	submask := ^uint64(0) // optional 5th argument: selection of the sub-fields of templated messages
+	split := false        // optional 6th argument "split": singular sub-messages of the input arrive in two occurrences
+	if len(a) > 4 {
+		submask, _ = strconv.ParseUint(a[4], 10, 64)
+	}
+	if len(a) > 5 {
+		split = a[5] == "split"
+	}
 	st := baseOf(t)
 	sel := func(p string) bool {
 		parts := strings.Split(strings.TrimPrefix(p, "/"), "/")
-		if len(parts) != 1 {
-			return true
-		}
+		top := -1
 		for i, f := range st.Fields {
 			if f.Name == parts[0] {
-				return mask&(1<<uint(i)) != 0
+				top = i
 			}
 		}
-		return false
+		if top < 0 {
+			return false
+		}
+		if len(parts) == 1 {
+			return mask&(1<<uint(top)) != 0
+		}
+		if len(parts) == 2 {
+			sub := baseOfElem(st.Fields[top].T)
+			for j, f := range sub.Fields {
+				if f.Name == parts[1] {
+					return submask&(1<<uint((top*5+j)%64)) != 0
+				}
+			}
+			return false
+		}
+		return true
 	}
 	tj := tmplJSON(t, v2, sel, "")
 	tmplCopy := []byte(tj)
@@ -427,6 +519,9 @@ func opTemplate(a []string) (string, string, string) {
 	in, err := proto.Marshal(v.Interface())
 	if err != nil {
 		return "marshal-err", "ok", ""
+	}
+	if split {
+		in = splitSubMessages(t, in)
 	}
 	inCopy := append([]byte{}, in...)
 	out, err := rw.Rewrite(nil, in)
@@ -473,10 +568,77 @@ func opTemplate(a []string) (string, string, string) {
 		return "ok", "ok", ""
 	}
 	k := ""
-	if zeroElemInRepeated(t, v2, mask) {
+	if zeroElemInRepeated(t, v2, mask) || zeroProjectedElem(t, v2, sel) {
 		k = "protoTemplateRepeatedZero"
 	}
 	return "got:" + g + " want:" + w + " tmpl:" + hx([]byte(tj)), "ok", k
+}
+
+// splitSubMessages re-encodes a message so that every singular sub-message with at least two records arrives in two
+// occurrences: the first half in place, the second half at the END of the message (after everything else)
+func splitSubMessages(t *Ty, b []byte) []byte {
+	recs, ok := wireParse(b)
+	if !ok {
+		return b
+	}
+	var out, tail []byte
+	for _, r := range recs {
+		ft := msgFieldType(t, r.num)
+		if r.wt == 2 && ft != nil && ft.K != "sl" && ft.K != "map" && baseOf(ft).K == "st" {
+			if inner, ok := wireParse(r.val); ok && len(inner) >= 2 {
+				cut := len(inner) / 2
+				var a, c []byte
+				for i, q := range inner {
+					if i < cut {
+						a = append(a, encRec(q)...)
+					} else {
+						c = append(c, encRec(q)...)
+					}
+				}
+				out = append(out, encRec(wrec{num: r.num, wt: 2, val: a})...)
+				tail = append(tail, encRec(wrec{num: r.num, wt: 2, val: c})...)
+				continue
+			}
+		}
+		out = append(out, encRec(r)...)
+	}
+	return append(out, tail...)
+}
+
+// zeroProjectedElem: an element of a selected repeated-message field whose SELECTED sub-fields are all default compiles to
+// a rewriter that writes nothing, so the element disappears from the list (same known finding as zero scalars in lists)
+func zeroProjectedElem(t *Ty, v reflect.Value, sel func(string) bool) bool {
+	st := baseOf(t)
+	for v.Kind() == reflect.Ptr {
+		if v.IsNil() {
+			return false
+		}
+		v = v.Elem()
+	}
+	for i, f := range st.Fields {
+		p := "/" + f.Name
+		if !sel(p) || !(f.T.K == "sl" && baseOf(f.T.Elem).K == "st") {
+			continue
+		}
+		sub := baseOf(f.T.Elem)
+		fv := v.Field(i)
+		for k := 0; k < fv.Len(); k++ {
+			e := fv.Index(k)
+			for e.Kind() == reflect.Ptr {
+				e = e.Elem()
+			}
+			all := true
+			for j, sf := range sub.Fields {
+				if sel(p+"/"+sf.Name) && !isDefaultVal(e.Field(j)) {
+					all = false
+				}
+			}
+			if all {
+				return true
+			}
+		}
+	}
+	return false
 }
 
 func isDefaultVal(v reflect.Value) bool {
@@ -613,6 +775,9 @@ func runC19(h *H) {
 			h.Do("proto.msgrewrite", rw, hx(in), im[3:])
 		}
 	}
+	// (1b) rewriters compiled from templates, against the model: merged sub-message occurrences, replaced lists and maps,
+	// fixed-width integers
+	h.tmplRewriteCases()
 	// (3) BitOr rules: decoded field = original | mask (0 | mask when absent)
 	for i := 0; i < 300; i++ {
 		kind := []string{"i64", "i32", "u64", "u32", "s64", "f64"}[h.Intn(6)]
@@ -645,6 +810,15 @@ func runC19(h *H) {
 			continue
 		}
 		mask := h.U64() & (1<<uint(len(t.Fields)) - 1)
-		h.DoRisky("proto.template", t.String(), showVal(t, v, false), showVal(t, v2, false), strconv.FormatUint(mask, 10))
+		switch i % 3 {
+		case 0: // whole sub-messages, input as Marshal writes it
+			h.DoRisky("proto.template", t.String(), showVal(t, v, false), showVal(t, v2, false), strconv.FormatUint(mask, 10))
+		case 1: // partial sub-templates
+			h.DoRisky("proto.template", t.String(), showVal(t, v, false), showVal(t, v2, false), strconv.FormatUint(mask, 10),
+				strconv.FormatUint(h.U64(), 10), "whole")
+		default: // partial sub-templates on an input whose singular sub-messages arrive in two occurrences
+			h.DoRisky("proto.template", t.String(), showVal(t, v, false), showVal(t, v2, false), strconv.FormatUint(mask, 10),
+				strconv.FormatUint(h.U64(), 10), "split")
+		}
 	}
 }
